@@ -40,6 +40,56 @@ func jobsFor(prop, tier string) []Job {
 		bidiJobs(prop, q, add)
 	case "C10":
 		bidiJobs(prop, q, add)
+	case "C03":
+		n := pick(6, 8)
+		for _, k := range []string{"arraylist", "singlylinkedlist", "doublylinkedlist"} {
+			add("list", fmt.Sprintf("%s.n%d", k, n), n, map[string]string{"c": k}, map[string]int{"n": n, "u": 3})
+		}
+	case "C04":
+		u := pick(4, 5)
+		add("set", fmt.Sprintf("hashset.u%d", u), u, map[string]string{"c": "hashset"}, map[string]int{"u": u})
+		add("set", fmt.Sprintf("linkedhashset.u%d", u), u*u, map[string]string{"c": "linkedhashset"}, map[string]int{"u": u})
+		for _, c := range []string{"nat", "rev", "coarse"} {
+			add("set", fmt.Sprintf("treeset.%s.u%d", c, u+1), u*u, map[string]string{"c": "treeset", "cmp": c}, map[string]int{"u": u + 1})
+			n := pick(10, 14)
+			add("kv", fmt.Sprintf("treeset.rank.%s.n%d", c, n), n*n, map[string]string{"c": "treeset", "cmp": c}, map[string]int{"n": n, "rank": 1})
+		}
+	case "C06":
+		for _, k := range []string{"binaryheap", "priorityqueue"} {
+			for _, c := range []string{"min", "max"} {
+				n := pick(5, 6)
+				add("heap", fmt.Sprintf("%s.%s.n%d.p3", k, c, n), n*10, map[string]string{"c": k, "cmp": c}, map[string]int{"n": n, "pmax": 3, "jsonlen": pick(3, 4)})
+				if !q {
+					add("heap", fmt.Sprintf("%s.%s.n8.p2", k, c), 100, map[string]string{"c": k, "cmp": c}, map[string]int{"n": 8, "pmax": 2, "jsonlen": 4})
+				}
+			}
+		}
+	case "C08":
+		n := pick(5, 7)
+		for _, c := range []string{"arraylist", "singlylinkedlist", "doublylinkedlist", "arraystack", "linkedliststack", "arrayqueue", "linkedlistqueue"} {
+			add("iter", c, n, map[string]string{"c": c}, map[string]int{"n": n, "u": 2})
+		}
+		for cp := 1; cp <= pick(4, 6); cp++ {
+			add("iter", fmt.Sprintf("circularbuffer%d", cp), cp, map[string]string{"c": "circularbuffer"}, map[string]int{"cap": cp, "u": 2})
+		}
+		add("iter", "linkedhashset", 4, map[string]string{"c": "linkedhashset"}, map[string]int{"u": pick(4, 5)})
+		add("iter", "linkedhashmap", 4, map[string]string{"c": "linkedhashmap"}, map[string]int{"u": pick(4, 5)})
+		add("iter", "treeset", 4, map[string]string{"c": "treeset"}, map[string]int{"n": pick(8, 11), "rank": 1})
+		add("iter", "treebidimap", 4, map[string]string{"c": "treebidimap"}, map[string]int{"u": pick(4, 5)})
+		for _, c := range []string{"binaryheap", "priorityqueue"} {
+			add("iter", c, n, map[string]string{"c": c}, map[string]int{"n": pick(5, 7), "pmax": 2, "jsonlen": 0})
+		}
+		for _, c := range []string{"rbt", "avl", "treemap"} {
+			add("iter", c, 20, map[string]string{"c": c}, map[string]int{"n": pick(8, 11), "rank": 1})
+		}
+		for _, m := range []int{3, 4} {
+			add("iter", fmt.Sprintf("btree%d", m), 30, map[string]string{"c": "btree"}, map[string]int{"m": m, "n": pick(10, 16), "rank": 1})
+		}
+		add("iter", "btree5", 40, map[string]string{"c": "btree"}, map[string]int{"m": 5, "n": 18, "rank": 1})
+	case "C09":
+		u := pick(5, 6)
+		add("linked", fmt.Sprintf("linkedhashmap.u%d", u), 2, map[string]string{"c": "linkedhashmap"}, map[string]int{"u": u})
+		add("linked", fmt.Sprintf("linkedhashset.u%d", u), 3, map[string]string{"c": "linkedhashset"}, map[string]int{"u": u})
 	case "C05":
 		n := pick(5, 7)
 		for _, k := range []string{"arraystack", "linkedliststack", "arrayqueue", "linkedlistqueue"} {
@@ -82,7 +132,31 @@ func explanationFor(prop string) string {
 	return "explicit-state breadth-first search over the real containers to a fixpoint under a live-size bound; every transition is a real API call replayed from the constructor on a fresh object and compared with a reference model; nested per-state enumerations are listed under 'nested' (DESIGN.md §4 " + prop + ")"
 }
 
+func intListSys(kind string, n, u int) *ListSys[int] {
+	return &ListSys[int]{Kind: kind, U: intRange(1, u), Absent: u + 1, Poison: -99, N: n,
+		Cmps: map[string]func(a, b int) int{"nat": intCmp("nat"), "rev": intCmp("rev"), "coarse": intCmp("coarse")}}
+}
+
+func intSetSys(kind, cmpN string, u int) *SetSys[int] {
+	return &SetSys[int]{Kind: kind, CmpN: cmpN, U: intRange(1, u), Absent: u + 2, Poison: -99, Cmp: intCmp(cmpN), Tuples: defaultSetTuples(u)}
+}
+
 func init() {
+	jobKinds["set"] = func(j Job, r *JobResult) {
+		exploreJob(j, r, intSetSys(j.s("c", ""), j.s("cmp", "nat"), j.p("u", 4)), nil)
+	}
+	jobKinds["heap"] = func(j Job, r *JobResult) {
+		s := heSys(j.s("c", ""), j.s("cmp", "min"), j.p("n", 5), j.p("pmax", 3), j.p("jsonlen", 3))
+		exploreJob(j, r, s, func(e *Explorer) {
+			e.OnState = func(path []Op, build func() Inst, st *Stats) *Viol {
+				st.Nested["drains"]++
+				return build().(*heapBox[HE]).drain()
+			}
+		})
+	}
+	jobKinds["list"] = func(j Job, r *JobResult) {
+		exploreJob(j, r, intListSys(j.s("c", ""), j.p("n", 6), j.p("u", 3)), nil)
+	}
 	jobKinds["seq"] = func(j Job, r *JobResult) {
 		s := &SeqSys[int]{Kind: j.s("c", ""), Cap: j.p("cap", 0), N: j.p("n", 5), Poison: -99}
 		for i := 1; i <= j.p("u", 3); i++ {
